@@ -1318,6 +1318,17 @@ class quantized_bits(base_quantizer.BaseQuantizer):  # pylint: disable=invalid-n
     if self.use_stochastic_rounding:
       flags.append("use_stochastic_rounding=" +
                    str(int(self.use_stochastic_rounding)))
+    if self.scale_axis is not None:
+      flags.append("scale_axis=" + str(self.scale_axis).replace(" ", ""))
+    if not self.use_ste:
+      flags.append("use_ste=False")
+    if self.elements_per_scale is not None:
+      flags.append("elements_per_scale=" +
+                   str(self.elements_per_scale).replace(" ", ""))
+    if self.min_po2_exponent is not None:
+      flags.append("min_po2_exponent=" + str(self.min_po2_exponent))
+    if self.max_po2_exponent is not None:
+      flags.append("max_po2_exponent=" + str(self.max_po2_exponent))
     return "quantized_bits(" + ",".join(flags) + ")"
 
   def __call__(self, x):
